@@ -313,6 +313,8 @@ def match_known(prop, key, known=None):
     """A finding entry matches a refutation key when every field it names is a
     regex that fully matches the key's field."""
     known = known or load_known()
+    if str(key.get("clause", "")).endswith("+outside-known-finding"):
+        return None     # found by the re-search that excludes every listed finding's inputs
     for f in known.get("findings", []):
         if f.get("property") != prop:
             continue
@@ -365,6 +367,9 @@ def keystr(key):
     return " ".join("%s=%s" % (k, key[k]) for k in sorted(key))
 
 
+PARTIAL = [False]      # set by bin/check.py for filtered debug runs
+
+
 def load_floor(prop):
     p = os.path.join(VERIF, "baseline", "%s.floor.json" % prop)
     if not os.path.exists(p):
@@ -404,7 +409,9 @@ def finish(res, level="other", explanation="", checker_cmd=None,
         with open(os.path.join(VERIF, "baseline", "%s.floor.json" % res.prop), "w") as fh:
             json.dump(fl, fh, separators=(",", ":"), sort_keys=True)
         floor = fl
-    if floor is not None and tier in floor:
+    if PARTIAL[0] and not write_floor:
+        res.notes.append("partial run (--configs/--types debug filter): the committed floor is not compared")
+    elif floor is not None and tier in floor:
         fset = set(floor[tier])
         have = set(holds_keys)
         now = {}
